@@ -145,12 +145,11 @@ CONDITIONS = []
 # babel-backed filters and date go through C / locale data: their symbolic dimension is kept, but they are slow
 _SLOW = {"currency", "money", "money_with_currency", "money_without_currency", "money_without_trailing_zeros", "datetime", "decimal",
          "unit", "date", "json", "t", "ngettext", "npgettext", "pgettext", "gettext"}
-_QUICK_FILTERS = {"base64_decode", "ceil", "compact", "divided_by", "modulo", "plus", "round", "slice", "sort_numeric", "sum",
-                  "times", "truncate", "truncatewords", "uniq", "where", "index", "date", "json", "ngettext", "t", "sort_natural", "unit",
-                  "currency", "datetime"}
+_QUICK_FILTERS = {"base64_decode", "ceil", "compact", "modulo", "floor", "slice", "sum", "truncate", "uniq", "where", "json", "ngettext",
+                  "sort_natural", "unit", "datetime", "date"}
 for _n in NAMES:
     globals()["c02_filter_" + _n] = _mk_filter(_n)
-    CONDITIONS.append({"fn": "c02_filter_" + _n, "quick": 30 if _n in _QUICK_FILTERS else None, "thorough": 150 if _n not in _SLOW else 200,
+    CONDITIONS.append({"fn": "c02_filter_" + _n, "quick": 25 if _n in _QUICK_FILTERS else None, "thorough": 150 if _n not in _SLOW else 200,
                        "float": True})
 
 # ---- tag argument positions ------------------------------------------------------------------------------------
@@ -201,7 +200,7 @@ def _mk_tag(kind):
 
 for _k in TAGS:
     globals()["c02_tag_" + _k] = _mk_tag(_k)
-    CONDITIONS.append({"fn": "c02_tag_" + _k, "quick": 40 if _k in ("for_limit_offset", "for_range", "tablerow_cols", "cycle_group", "include_for", "index_path", "compare", "translate_count", "string_seq") else None, "thorough": 240, "float": True})
+    CONDITIONS.append({"fn": "c02_tag_" + _k, "quick": 30 if _k in ("for_range", "tablerow_cols", "include_for", "index_path", "translate_count", "string_seq") else None, "thorough": 240, "float": True})
 
 # ---- kernels -------------------------------------------------------------------------------------------------------
 from liquid.filter import decimal_arg, int_arg, num_arg  # noqa: E402
@@ -240,7 +239,7 @@ def c02_kernel_args(x: V, k: int, slot: bool, sp: int) -> bool:
     return finish(True)
 
 
-CONDITIONS.append({"fn": "c02_kernel_args", "quick": 60, "thorough": 200, "float": True})
+CONDITIONS.append({"fn": "c02_kernel_args", "quick": 30, "thorough": 200, "float": True})
 
 
 # ---- parse side ----------------------------------------------------------------------------------------------------------
